@@ -34,6 +34,14 @@ namespace C02
 /-- `da sa motion => frames D:… D:…` -/
 def check (inp out : List String) : Verdict :=
   match inp, out with
+  | [da, sa, m], ["REJECTED"] =>
+    -- the command, written out in its wire form, was refused by the decoder every client command passes through: it
+    -- never reaches the unit (every command of the generator is within the protocol's bounds)
+    match da.toNat?, sa.toNat?, parseMotion? m with
+    | some da, some sa, some m =>
+      { agree := false, model := joinSp [showFrames (encodeMotion da sa m)],
+        specFail := ["command_within_the_protocol_bounds_is_accepted"] }
+    | _, _, _ => .bad "C02 tokens"
   | [da, sa, m], fr :: decs =>
     match da.toNat?, sa.toNat?, parseMotion? m, parseFrames? fr, decs.mapM parseDec? with
     | some da, some sa, some m, some fs, some ds =>
